@@ -248,8 +248,7 @@ def calculateStableswapY (p : PoolInfo) (offerDenom askDenom : String) (askPoolD
 def computeSwapCP (p : PoolInfo) (offerPool askPool offer : Nat) : R SwapComputation := do
   let num ← ckMul U256_MAX askPool offer
   let den ← ckAdd U256_MAX offerPool offer
-  let q ← match decFromRatio U256_MAX num den with
-    | .ok q => pure q | .error _ => .error .panic
+  let q ← orPanic (decFromRatio U256_MAX num den)
   let gross := decFloor q
   let rate ← decFromRatio U256_MAX askPool offerPool
   let o18 ← fit U256_MAX (offer * ONE18) .panic
@@ -306,15 +305,13 @@ def assertMaxSlippage (belief maxSlippage : Option Nat) (offer ret slippage : Na
     let expected := decFloor e
     let sl := expected - ret
     if ret < expected then
-      let ratio ← match decFromRatio U256_MAX sl expected with
-        | .ok q => pure q | .error _ => .error .panic
+      let ratio ← orPanic (decFromRatio U256_MAX sl expected)
       if ratio > ms then .error .slippage else pure ()
     else pure ()
   | none =>
     -- `return_amount + slippage_amount` on Uint128 panics on overflow
     let tot ← fit U128_MAX (ret + slippage) .panic
-    let ratio ← match decFromRatio U256_MAX slippage tot with
-      | .ok q => pure q | .error _ => .error .panic
+    let ratio ← orPanic (decFromRatio U256_MAX slippage tot)
     if ratio > ms then .error .slippage else pure ()
 
 /-! ### reverse quote, constant product (helpers.rs `compute_offer_amount`) -/
@@ -331,8 +328,8 @@ structure OfferAmountComputation where
 def computeOfferAmount (offerPool askPool ask : Nat) (f : PoolFee) : R OfferAmountComputation := do
   let fees ← ([f.protocol, f.burn] ++ f.extra).foldlM (fun acc s => ckAdd U256_MAX acc s) f.swap
   -- `Decimal256::one() - fees` and `one / x` are the panicking operators
-  let oneMinus ← match ckSub ONE18 fees with | .ok x => pure x | .error _ => .error .panic
-  let inv ← match decDiv U256_MAX ONE18 oneMinus with | .ok x => pure x | .error _ => .error .panic
+  let oneMinus ← orPanic (ckSub ONE18 fees)
+  let inv ← orPanic (decDiv U256_MAX ONE18 oneMinus)
   let cp ← fit U256_MAX (offerPool * askPool) .panic
   let a18 ← fit U256_MAX (ask * ONE18) .panic
   let bc ← decMul U256_MAX a18 inv
@@ -340,10 +337,10 @@ def computeOfferAmount (offerPool askPool ask : Nat) (f : PoolFee) : R OfferAmou
   let den ← ckSub askPool beforeCommission
   let den ← ckSub den 1
   -- `Uint256::one().multiply_ratio(cp, den)` panics on zero denominator / overflow
-  let q ← match mulRatio U256_MAX 1 cp den with | .ok x => pure x | .error _ => .error .panic
+  let q ← orPanic (mulRatio U256_MAX 1 cp den)
   let offer ← ckSub q offerPool
   let o18 ← fit U256_MAX (offer * ONE18) .panic
-  let rate ← match decFromRatio U256_MAX askPool offerPool with | .ok x => pure x | .error _ => .error .panic
+  let rate ← orPanic (decFromRatio U256_MAX askPool offerPool)
   let bs ← decMul U256_MAX o18 rate
   let beforeSlippage := decFloor bs
   let slippage := beforeSlippage - beforeCommission
@@ -386,7 +383,7 @@ def dCoreLoop (fuel : Nat) (amp : Nat) (timesN : List Nat) (sumX n : Nat) (d : N
   | fuel + 1 => do
     let dProd ← timesN.foldlM (fun dp a =>
       if a == 0 then pure dp else do
-        let m ← match ckMul U512_MAX dp d with | .ok x => pure x | .error _ => .error .panic
+        let m ← orPanic (ckMul U512_MAX dp d)
         pure (m / a)) d
     let dNew ← match computeNextD amp d dProd sumX n with
       | some x => pure x | none => .error .panic
@@ -395,10 +392,10 @@ def dCoreLoop (fuel : Nat) (amp : Nat) (timesN : List Nat) (sumX n : Nat) (d : N
 /-- `calculate_d_core(amp, deposits, n_coins)`; every failure inside is an `unwrap` = panic -/
 def calculateDCore (amp : Nat) (deposits : List Nat) (n : Nat) : R Nat := do
   let sumX ← deposits.foldlM (fun acc x =>
-    match ckAdd U128_MAX acc x with | .ok s => pure s | .error _ => .error .panic) 0
+    orPanic (ckAdd U128_MAX acc x)) 0
   if sumX == 0 then pure 0 else
   let timesN ← deposits.mapM (fun a =>
-    match ckMul U128_MAX a n with | .ok s => pure s | .error _ => .error .panic)
+    orPanic (ckMul U128_MAX a n))
   dCoreLoop C.NEWTON_ITERATIONS amp timesN sumX n sumX
 
 /-- `compute_d(amp, coins)` -/
@@ -459,7 +456,7 @@ def minLiquidityStable (minPrec maxPrec : Nat) : R Nat := do
 /-- helpers.rs `dynamic_fee` (offpeg multiplier 2) -/
 def dynamicFee (xpi : Nat) (xpj : Nat) (fee : Nat) (assetDecimals : Nat) : R Nat := do
   let mult := 2 * ONE18
-  let unw (r : R Nat) : R Nat := match r with | .ok x => pure x | .error _ => .error .panic
+  let unw (r : R Nat) : R Nat := orPanic (r)
   let xpi512 ← unw (decToUintWithPrecision xpi assetDecimals)
   let s ← ckAdd U512_MAX xpi512 xpj
   let xps2 ← fit U512_MAX (s * s) .panic       -- `.pow(2)` panics on overflow
@@ -488,7 +485,7 @@ def computeLpMintStable (amp : Nat) (old new : List Coin) (supply : Nat) (p : Po
   let deposited : List Coin := (new.zip old).map fun (n, o) => ⟨n.denom, n.amount - o.amount⟩
   -- `total_deposit_amount += amount` is a u128 `+=` (panics on overflow)
   let total ← deposited.foldlM (fun acc c =>
-    match ckAdd U128_MAX acc c.amount with | .ok s => pure s | .error _ => .error .panic) 0
+    orPanic (ckAdd U128_MAX acc c.amount)) 0
   if total == 0 then pure 0 else
   let d0 ← match ← computeDWithPoolInfo amp old p with | some d => pure d | none => .error .other
   let d1 ← match ← computeDWithPoolInfo amp new p with | some d => pure d | none => .error .other
@@ -609,12 +606,12 @@ def assertSlippageTolerance (tol : Option Nat) (deposits : List Coin) (poolAsset
       let dF ← computeD amp fin
       let sI := isqrt dI
       let sF := isqrt dF
-      let ratio ← match decFromRatio U256_MAX sF sI with | .ok x => pure x | .error _ => .error .panic
-      let r2 ← match decPow2 U256_MAX ratio with | .ok x => pure x | .error _ => .error .panic
+      let ratio ← orPanic (decFromRatio U256_MAX sF sI)
+      let r2 ← orPanic (decPow2 U256_MAX ratio)
       if r2 > tol then .error .slippage else pure sorted
     | .cp =>
       if depAmts.length != 2 || pools.length != 2 then .error .invalidInput else
-      let unw (r : R Nat) : R Nat := match r with | .ok x => pure x | .error _ => .error .panic
+      let unw (r : R Nat) : R Nat := orPanic (r)
       let d0 := depAmts[0]!; let d1 := depAmts[1]!
       let p0 := pools[0]!; let p1 := pools[1]!
       let a ← unw (decFromRatio U256_MAX d0 d1)
